@@ -74,6 +74,7 @@ type c01Home struct {
 	row    *tabular.Row // nil for a header cell
 	col    int
 	header bool
+	old    *objData // via 6, 7: the replaced header's item, when that is an object
 }
 
 type c01Marker struct{ n int }
@@ -211,6 +212,116 @@ var c01NumGo = []string{
 	"complex(math.NaN(), 0)", "math.Inf(1)", "math.Inf(-1)",
 }
 
+// boundary values of every predeclared integer type (int32 is rune: the rune
+// arm, covered by the rune items), and named integer types
+type c01U64 uint64
+type c01Uint uint
+type c01Int int
+type c01I8 int8
+type c01Uptr uintptr
+type c01U64S uint64
+
+func (u c01U64S) String() string { return fmt.Sprintf("u64s<%d>", uint64(u)) }
+
+func init() {
+	add := func(v interface{}, g string) {
+		c01Nums = append(c01Nums, v)
+		c01NumGo = append(c01NumGo, g)
+	}
+	add(int8(math.MinInt8), "int8(math.MinInt8)")
+	add(int8(math.MaxInt8), "int8(math.MaxInt8)")
+	add(int16(math.MinInt16), "int16(math.MinInt16)")
+	add(int16(math.MaxInt16), "int16(math.MaxInt16)")
+	add(int64(math.MinInt64), "int64(math.MinInt64)")
+	add(int64(math.MaxInt64), "int64(math.MaxInt64)")
+	add(int(math.MinInt64), "int(math.MinInt64)")
+	add(int(math.MaxInt64), "int(math.MaxInt64)")
+	add(int(-1), "int(-1)")
+	add(uint8(math.MaxUint8), "uint8(math.MaxUint8)")
+	add(uint16(math.MaxUint16), "uint16(math.MaxUint16)")
+	add(uint32(math.MaxUint32), "uint32(math.MaxUint32)")
+	add(uint32(1<<31), "uint32(1<<31)")
+	add(uint64(1<<63), "uint64(1<<63)")
+	add(uint64(1<<63-1), "uint64(1<<63-1)")
+	add(uint64(math.MaxUint64), "uint64(math.MaxUint64)")
+	add(uint64(0), "uint64(0)")
+	add(uint(1<<63), "uint(1<<63)")
+	add(uint(1<<63-1), "uint(1<<63-1)")
+	add(uint(math.MaxUint64), "uint(math.MaxUint64)")
+	add(uintptr(1<<63), "uintptr(1<<63)")
+	add(uintptr(math.MaxUint64), "uintptr(math.MaxUint64)")
+	add(uintptr(1<<63-1), "uintptr(1<<63-1)")
+	add(c01U64(math.MaxUint64), "c01U64(math.MaxUint64) /* type c01U64 uint64 */")
+	add(c01U64(1<<63), "c01U64(1<<63)")
+	add(c01Uint(1<<63), "c01Uint(1<<63) /* type c01Uint uint */")
+	add(c01Int(math.MinInt64), "c01Int(math.MinInt64) /* type c01Int int */")
+	add(c01I8(-128), "c01I8(-128) /* type c01I8 int8 */")
+	add(c01Uptr(math.MaxUint64), "c01Uptr(math.MaxUint64) /* type c01Uptr uintptr */")
+	add(c01U64S(math.MaxUint64), "c01U64S(math.MaxUint64) /* uint64 with a String method */")
+	add(uint64(12345678901234567890), "uint64(12345678901234567890)")
+	add(int64(-1), "int64(-1)")
+}
+
+// typed nil pointers (and other nil values that are not the untyped nil): the
+// methods of these types are safe to call on a nil receiver
+type c01NilStr struct{ s string }
+
+func (n *c01NilStr) String() string {
+	if n == nil {
+		return "nil-node"
+	}
+	return n.s
+}
+
+type c01NilEmpty struct{ s string }
+
+func (n *c01NilEmpty) String() string {
+	if n == nil {
+		return ""
+	}
+	return n.s
+}
+
+type c01NilGo struct{ s string }
+
+func (n *c01NilGo) GoString() string {
+	if n == nil {
+		return "(*c01NilGo)(nil)"
+	}
+	return n.s
+}
+
+type c01NilErr struct{ s string }
+
+func (n *c01NilErr) Error() string {
+	if n == nil {
+		return "nil error value"
+	}
+	return n.s
+}
+
+type c01NilAll struct{ s string }
+
+func (n *c01NilAll) String() string   { return "S-of-nil" }
+func (n *c01NilAll) GoString() string { return "G-of-nil" }
+func (n *c01NilAll) Error() string    { return "E-of-nil" }
+func (n *c01NilAll) Height() int      { return 2 }
+func (n *c01NilAll) TerminalCellWidth() int {
+	return 11
+}
+
+type c01Plain struct{ A int }
+
+var c01Nils = []interface{}{
+	(*c01NilStr)(nil), (*c01NilEmpty)(nil), (*c01NilGo)(nil), (*c01NilErr)(nil), (*c01NilAll)(nil),
+	(*c01Plain)(nil), (*int)(nil), map[string]int(nil), []int(nil), (func())(nil), (chan int)(nil), (*string)(nil), []string(nil), (**int)(nil),
+}
+var c01NilGoSrc = []string{
+	"(*T)(nil) /* func (n *T) String() string is nil-safe and returns \"nil-node\" */", "(*T)(nil) /* nil-safe String() returning \"\" */",
+	"(*T)(nil) /* nil-safe GoString() */", "(*T)(nil) /* nil-safe Error() */", "(*T)(nil) /* nil-safe String, GoString, Error, Height, TerminalCellWidth */",
+	"(*struct{ A int })(nil)", "(*int)(nil)", "map[string]int(nil)", "[]int(nil)", "(func())(nil)", "(chan int)(nil)", "(*string)(nil)", "[]string(nil)", "(**int)(nil)",
+}
+
 func c01Num(i int64) ItemSpec { return ItemSpec{K: "num", I: i} }
 
 // the value that is == to c01Nums[i] (or plays that role) and formats differently
@@ -293,6 +404,8 @@ func c01Make(base ItemSpec) (interface{}, func(C01Round)) {
 	case "arrptr":
 		a := c01ArrPtr{&O01{objData{s: string(base.B)}}, &O01{objData{s: "second"}}}
 		return a, func(rd C01Round) { a[0].s = string(rd.S) }
+	case "typednil":
+		return c01Nils[int(base.I)%len(c01Nils)], func(C01Round) {}
 	}
 	v, d := base.Make()
 	switch base.K {
@@ -310,7 +423,7 @@ func c01Make(base ItemSpec) (interface{}, func(C01Round)) {
 	return v, func(C01Round) {}
 }
 
-const c01ViaN = 6
+const c01ViaN = 8
 
 var c01ViaGo = []string{
 	"c := tabular.NewCell(ITEM)",
@@ -319,6 +432,8 @@ var c01ViaGo = []string{
 	"t := tabular.New(); t.AddRow(tabular.NewRow().Add(tabular.NewCell(ITEM))); c, _ := t.CellAt(tabular.CellLocation{Row: 1, Column: 1})",
 	"t := tabular.New(); r := t.AppendNewRow(); r.Add(tabular.NewCell(ITEM)); c := &r.Cells()[0]",
 	"t := tabular.New(); t.AddHeaders(\"h\", ITEM); t.AddRowItems(ITEM, \"x\"); c := &t.AllRows()[0].Cells()[0]",
+	"t := tabular.New(); t.AddHeaders(\"k\", OLD /* another item with the same text: the text as a string; nil for \"\"; a pointer with String() for a string item */); t.AddRowItems(\"a\", \"b\"); t.AddHeaders(\"k\", ITEM); c := &t.Headers()[1]",
+	"t := tabular.New(); t.AddHeaders(OLD /* a distinct pointer whose String() gives the same text */); t.AddHeaders(ITEM); c := &t.Headers()[0]",
 }
 
 // cellVia stores item as the spec says and returns the cell to observe
@@ -352,6 +467,33 @@ func cellVia(via int, item interface{}) (*tabular.Cell, *c01Home) {
 		t.AddHeaders("h", item)
 		t.AddRowItems(item, "x")
 		return &t.AllRows()[0].Cells()[0], &c01Home{t: t, row: t.AllRows()[0], col: 1}
+	case 6, 7:
+		// AddHeaders a second time: at the cell's position the old header held a
+		// DIFFERENT item with the SAME text
+		probe := tabular.NewCell(item)
+		text := probe.String()
+		var old interface{}
+		var od *objData
+		_, isString := item.(string)
+		switch {
+		case via == 7 || (isString && text != ""):
+			old, od = newObj(1, objData{s: text})
+		case item == nil:
+			old = ""
+		case text == "":
+			old = nil
+		default:
+			old = text
+		}
+		if via == 6 {
+			t.AddHeaders("k", old)
+			t.AddRowItems("a", "b")
+			t.AddHeaders("k", item)
+			return &t.Headers()[1], &c01Home{t: t, col: 2, header: true, old: od}
+		}
+		t.AddHeaders(old)
+		t.AddHeaders(item)
+		return &t.Headers()[0], &c01Home{t: t, col: 1, header: true, old: od}
 	}
 	panic(fmt.Sprintf("harness: unknown via %d", via))
 }
@@ -705,6 +847,10 @@ func c01Run(sp C01Spec) (coq string, desc C01Desc, texts []string, lv []*c01Leve
 	for _, rd := range sp.Rounds {
 		// mutate the base item
 		mutate(rd)
+		// the item this header replaced changes as well: none of the cell's business
+		if home != nil && home.old != nil {
+			home.old.s = "the replaced header's item, changed"
+		}
 		// things done to the table that are no request to update
 		if home != nil && sp.Idle != 0 {
 			home.idle(sp.Idle)
@@ -783,6 +929,8 @@ func c01GoLiteral(base ItemSpec) string {
 		return fmt.Sprintf("%v", base.I != 0)
 	case "num":
 		return c01NumGo[int(base.I)%len(c01NumGo)]
+	case "typednil":
+		return c01NilGoSrc[int(base.I)%len(c01NilGoSrc)]
 	}
 	return ""
 }
@@ -790,7 +938,7 @@ func c01GoLiteral(base ItemSpec) string {
 func c01GoSnippet(wraps []string, base ItemSpec, via int, also []ItemSpec) string {
 	var e string
 	switch base.K {
-	case "num":
+	case "num", "typednil":
 		e = c01GoLiteral(base)
 	case "nil":
 		e = "nil"
@@ -927,6 +1075,9 @@ func c01RandBase(r *RNG) ItemSpec {
 	case 9:
 		return c01Num(int64(r.Intn(len(c01Nums))))
 	case 10:
+		if r.Pct(40) {
+			return ItemSpec{K: "typednil", I: int64(r.Intn(len(c01Nils)))}
+		}
 		return ItemSpec{K: pick(r, c01ByValueKinds), B: []byte(pick(r, c01Texts)), I: int64(r.Intn(9))}
 	default:
 		return c01Obj(r.Intn(32), r.Intn(len(c01Texts)), r.Intn(9))
@@ -1120,6 +1271,8 @@ func init() {
 		Rule: "items of every kind the library distinguishes: nil, strings (empty, ASCII, multi-line, multibyte, ill-formed UTF-8), runes (ASCII, NUL, 2/3/4-byte, surrogates, U+FFFD, > U+10FFFF, negative, int32 extremes), " +
 			"32 generated pointer types = every subset of {String, GoString, Error} x {Height, TerminalCellWidth} with the selected method returning each text class (the others return something else), " +
 			"int, bool, float, slice, map, struct, value-receiver Stringer, string-kind error, chan; scalars that are == another value and format differently or are != themselves (signed zeros and NaN of float32/float64/complex64/complex128, infinities), put into cells one after the other in one process in both orders; " +
+			"boundary values of every predeclared integer type (min, max, 1<<63, 1<<63-1, all bits set) and of named integer types; nil values that are not the untyped nil (nil pointers whose String / GoString / Error are nil-safe, nil *struct, *int, map, slice, func, chan); " +
+			"headers replaced by a second AddHeaders whose new item differs from the old one at that position but has the same text (the text as a string, nil for the empty text, another pointer), the old item mutated as well; " +
 			"items stored BY VALUE whose text is reached through a reference inside them (struct with a slice / map field under %v, value-receiver String / Error / GoString reading through a pointer / map / slice field, array of pointers to Stringers), mutated through that reference; each also nested in Cell and *Cell up to depth 3; " +
 			"0-2 mutation rounds (object fields / slice element / map value changed, then every level observed, then Update bottom-up or top-down, then observed); " +
 			"the outermost cell is made by NewCell or the item is stored THROUGH a table (AddRowItems, AddHeaders, NewRow+Add+AddRow, AppendNewRow+Add, header and body together) and the cell the table hands out (CellAt, Headers(), Row.Cells()) is the one observed and Updated, with the same expectations; " +
@@ -1162,6 +1315,13 @@ func init() {
 			}
 			for k := range c01Nums {
 				add(withTwins(C01Spec{Item: c01Num(int64(k)), Rounds: []C01Round{{}}}))
+			}
+			// nil values that are not the untyped nil
+			for k := range c01Nils {
+				b := ItemSpec{K: "typednil", I: int64(k)}
+				add(C01Spec{Item: b})
+				add(C01Spec{Item: b, Rounds: []C01Round{{}}, Via: 1 + k%(c01ViaN-1)})
+				add(C01Spec{Item: wrapItem([]string{"cell"}, b), Rounds: []C01Round{{}}, Via: (k + 3) % c01ViaN})
 			}
 			// items held by value whose text is reached through a reference inside them
 			for k, kind := range c01ByValueKinds {
